@@ -1203,6 +1203,11 @@ def c16(run):
         scen.append(json.dumps({"do": "threads", "n": n, "program": ["F", "R"], "order": order}, separators=(",", ":")))
         order = list(range(1, n + 1)) + [1] + list(range(n, 1, -1))
         scen.append(json.dumps({"do": "threads", "n": n, "program": ["F", "R"], "order": order}, separators=(",", ":")))
+    # more threads over the life of the process than can be alive at once: thread 1 fails and keeps its handle,
+    # n - 1 short-lived threads fail and read one after the other (each is joined before the next starts), thread 1 reads
+    for n in (17000,) if quick(run) else (17000, 33000, 66000):
+        order = [1] + [t for t in range(2, n + 1) for _ in (0, 1)] + [1]
+        scen.append(json.dumps({"do": "threads", "n": n, "program": ["F", "R"], "order": order, "lazy": True}, separators=(",", ":")))
     obs, path = vlib.drive(scen, run.wd, "sched")
     if len(obs) != len(scen):
         raise ToolError("driver returned %d observations for %d scenarios" % (len(obs), len(scen)))
